@@ -3,6 +3,7 @@ package main
 // E7: option-table extraction for functional options (util.Option closures).
 
 import (
+	"regexp"
 	"fmt"
 	"go/token"
 	"go/types"
@@ -734,6 +735,8 @@ func checkOptionTable(c *Ctx, r *Report, prefix, pkgRel string, spec map[string]
 		sort.Strings(w)
 		if strings.Join(w, " ") == strings.Join(got, " ") {
 			r.OK(prefix+"/O3", construct, pos, strings.Join(got, " "))
+		} else if why := c.sameStoresThroughHelper(fn, w, got); why != "" {
+			r.OK(prefix+"/O3", construct, pos, strings.Join(got, " ")+" ("+why+")")
 		} else {
 			r.Bad(prefix+"/O3", construct, pos, fmt.Sprintf("option stores %v but the setting it names is %v", got, w))
 		}
@@ -764,6 +767,89 @@ func checkOptionTable(c *Ctx, r *Report, prefix, pkgRel string, spec map[string]
 		}
 	}
 	return infos
+}
+
+var (
+	optLeafRe = regexp.MustCompile(`const:"(?:[^"\\]|\\.)*"|const:[^,()]+|param\d+|self\w*`)
+	optCallRe = regexp.MustCompile(`call:([\w./]+)\(`)
+)
+
+// sameStoresThroughHelper: the option stores the same fields from the same constants / parameters as specified, and
+// every function the specification routes a value through is still called -- directly or inside an unexported helper
+// of the option's package that the value now goes through (e.g. two ResolveFilePath attempts folded into one
+// resolveFirst(paths...) helper). Returns a description, or "" when the stores differ.
+func (c *Ctx) sameStoresThroughHelper(fn *ssa.Function, want, got []string) string {
+	type agg struct {
+		leaves map[string]bool
+		calls  map[string]bool
+	}
+	collect := func(list []string) map[string]*agg {
+		m := map[string]*agg{}
+		for _, s := range list {
+			parts := strings.SplitN(s, "<-", 2)
+			if len(parts) != 2 {
+				continue
+			}
+			a := m[parts[0]]
+			if a == nil {
+				a = &agg{leaves: map[string]bool{}, calls: map[string]bool{}}
+				m[parts[0]] = a
+			}
+			for _, l := range optLeafRe.FindAllString(parts[1], -1) {
+				a.leaves[l] = true
+			}
+			for _, cm := range optCallRe.FindAllStringSubmatch(parts[1], -1) {
+				a.calls[cm[1]] = true
+			}
+		}
+		return m
+	}
+	w, g := collect(want), collect(got)
+	if len(w) != len(g) {
+		return ""
+	}
+	var helpers []string
+	for field, wa := range w {
+		ga := g[field]
+		if ga == nil || len(wa.leaves) != len(ga.leaves) {
+			return ""
+		}
+		for l := range wa.leaves {
+			if !ga.leaves[l] {
+				return ""
+			}
+		}
+		// functions reachable through the helpers named in the actual source
+		reach := map[string]bool{}
+		for name := range ga.calls {
+			reach[name] = true
+			dot := strings.LastIndex(name, ".")
+			if dot < 0 {
+				continue
+			}
+			for _, h := range c.LibFns {
+				if h.Pkg != fn.Pkg || h.Name() != name[dot+1:] || h.Object() == nil || h.Object().Exported() {
+					continue
+				}
+				helpers = append(helpers, name)
+				for _, ci := range callInstrs(h) {
+					if o := CalleeObj(ci); o != nil && o.Pkg() != nil {
+						reach[o.Pkg().Name()+"."+o.Name()] = true
+					}
+				}
+			}
+		}
+		for name := range wa.calls {
+			if !reach[name] {
+				return ""
+			}
+		}
+	}
+	if len(helpers) == 0 {
+		return ""
+	}
+	sort.Strings(helpers)
+	return "same sources through helper " + strings.Join(uniqStrings(helpers), ", ")
 }
 
 // lastStoreBefore returns the value most recently stored to cell a before instruction at, within at's block.
